@@ -152,6 +152,8 @@ pub struct SyncIoError;
 #[verifier::external_body]
 pub fn sync_io_error(e: IoError) -> SyncIoError { unimplemented!() }
 pub struct ExitStatus { pub raw: int }
+// std::process::ExitStatus::default(): a made-up status (exit code 0), NOT the status of any reaped child
+impl Default for ExitStatus { #[verifier::external_body] fn default() -> ExitStatus { unimplemented!() } }
 #[derive(Clone, Copy)]
 pub struct ProcessEnd { pub v: int }
 pub spec const PROCESS_END_CONTINUED: ProcessEnd = ProcessEnd { v: -1 };
